@@ -88,6 +88,13 @@ func C05(o *world.Obs) *Result {
 				r.Fail("C05", "content-length-inconsistent", ex.Idx, "Content-Length %q on a body of %d bytes; %s", cl, len(ex.Resp.Body), SummarizeExchange(o, ex))
 			}
 		}
+		// trailer fields are part of the stored response as well
+		if len(src.Trailer) > 0 && !ex.Req.HoldBody && ex.Req.Method != "HEAD" {
+			r.Label("from-store-with-trailer")
+			if d := world.DiffHeader(src.Trailer, ex.Resp.Trailer); d != "" {
+				r.Fail("C05", "trailer-differs", ex.Idx, "trailer fields of stored reply s%d: %s; %s", src.Serial, d, SummarizeExchange(o, ex))
+			}
+		}
 		// expected end-to-end fields: under some admissible version
 		vs := Versions(o, src, ex.StartSeq)
 		if v304 := o.Validated304(ex); v304 != nil {
